@@ -207,6 +207,19 @@ impl Report {
             println!("  {} :: {}", v.key, v.msg);
             printed += 1;
         }
+        if unlisted.len() > 5 {
+            // signature summary (without method-independent noise) to see the classes at a glance
+            let mut classes: BTreeMap<String, (u64, String)> = BTreeMap::new();
+            for v in &unlisted {
+                let k = v.sig.iter().map(|(a, b)| format!("{}={}", a, b)).collect::<Vec<_>>().join(" ");
+                let e = classes.entry(k).or_insert((0, v.key.chars().take(80).collect()));
+                e.0 += 1;
+            }
+            println!("  violation classes ({}):", classes.len());
+            for (k, (c, ex)) in classes.iter().take(80) {
+                println!("    {:6} x {}   e.g. {}", c, k, ex);
+            }
+        }
         if unlisted.len() > printed {
             println!("  ... and {} more unlisted violations (not written out)", unlisted.len() - printed);
         }
